@@ -112,7 +112,16 @@ def cli_leg(rep, tier):
         subprocess.run([cli] + fl + ["-t", fname, "-b", "in.txt"], capture_output=True, cwd=sub)
         bf = [f for f in os.listdir(sub) if f.startswith("in.") and f != "in.txt"]
         d = open(os.path.join(sub, bf[0]), "rb").read() if bf else None
-        outs = {"stdin->stdout": a, "file->stdout": b, "-o": c, "-b": d}
+        # batch mode with a path that has a directory part (relative and absolute): the result belongs next to the source
+        deep = os.path.join(sub, "docs", "part"); os.makedirs(deep, exist_ok=True); open(os.path.join(deep, "paper.txt"), "wb").write(doc)
+        def batch_out(arg):
+            for f in os.listdir(deep):
+                if f != "paper.txt": os.unlink(os.path.join(deep, f))
+            subprocess.run([cli] + fl + ["-t", fname, "-b", arg], capture_output=True, cwd=sub)
+            got = [f for f in os.listdir(deep) if f.startswith("paper.") and f != "paper.txt"]
+            return open(os.path.join(deep, got[0]), "rb").read() if got else None
+        d_rel = batch_out("docs/part/paper.txt"); d_abs = batch_out(os.path.join(deep, "paper.txt"))
+        outs = {"stdin->stdout": a, "file->stdout": b, "-o": c, "-b": d, "-b dir/file": d_rel, "-b /abs/dir/file": d_abs}
         for nm, x in outs.items():
             if x is None: out.append(("entry:no-result:cli %s:%s" % (nm, "text" if fname != "fodt" else fname), "CLI %s wrote nothing for -t %s %s" % (nm, fname, " ".join(fl)), case_d))
             elif x != a: out.append(("entry:differs:cli %s:%s" % (nm, "text" if fname != "fodt" else fname), "CLI %s differs from stdin->stdout for -t %s %s" % (nm, fname, " ".join(fl)), case_d))
@@ -133,7 +142,7 @@ def cli_leg(rep, tier):
             rep.add_violation("entry:differs:cli-vs-library:%s" % ("text" if fname != "fodt" else fname), "CLI -t %s %s differs from mmd_d_string_convert_to_data" % (fname, " ".join(fl)),
                               dict(src=doc[:300].decode("latin-1"), format=fname, flags=fl), replay=dict(kind="cli"))
     shutil.rmtree(tmp, ignore_errors=True)
-    rep.add_level("cli", len(jobs) * 4, len(jobs) * 4, True, time.time() - t0, len(jobs), "CLI stdin->stdout, file->stdout, -o, -b and the library on a sub-grid of sources x text formats x flag sets")
+    rep.add_level("cli", len(jobs) * 4, len(jobs) * 4, True, time.time() - t0, len(jobs), "CLI stdin->stdout, file->stdout, -o, -b (bare name, relative and absolute path with directories) and the library on a sub-grid of sources x text formats x flag sets")
 
 def run(tier):
     rep = core.Report("C06", tier, "exploration")
